@@ -115,7 +115,7 @@ def cache_sizes() -> dict:
 # dynamics registry and probes
 # --------------------------------------------------------------------------- #
 PROBE_LOG: list = []
-_PROBE_STATE = {"raise_at": None, "calls": 0, "fired": False}
+_PROBE_STATE = {"raise_at": None, "calls": 0, "fired": False, "nested_at": None, "nested_hook": None, "nested_result": None}
 
 
 class ProbeBuilder:
@@ -130,6 +130,11 @@ class ProbeBuilder:
         import sympy as sp  # noqa: PLC0415
 
         _PROBE_STATE["calls"] += 1
+        if _PROBE_STATE["nested_at"] is not None and _PROBE_STATE["calls"] == _PROBE_STATE["nested_at"]:
+            # re-entrancy through the callback seam: the user's builder formulates another model
+            # while the outer formulate() is in progress
+            hook, _PROBE_STATE["nested_at"] = _PROBE_STATE["nested_hook"], None
+            _PROBE_STATE["nested_result"] = hook()
         if _PROBE_STATE["raise_at"] is not None and _PROBE_STATE["calls"] == _PROBE_STATE["raise_at"]:
             _PROBE_STATE["fired"] = True
             raise InjectedFault(f"probe {self.verif_tag} call {_PROBE_STATE['calls']}")
@@ -165,6 +170,16 @@ class ProbeBuilder:
 
 def arm_probe_fault(k) -> None:
     _PROBE_STATE.update(raise_at=k, calls=0, fired=False)
+
+
+def arm_nested_formulate(k, hook) -> None:
+    _PROBE_STATE.update(nested_at=k, nested_hook=hook, nested_result=None, calls=0)
+
+
+def take_nested_result():
+    result, _PROBE_STATE["nested_result"] = _PROBE_STATE["nested_result"], None
+    _PROBE_STATE.update(nested_at=None, nested_hook=None)
+    return result
 
 
 def probe_fault_fired() -> bool:
